@@ -150,6 +150,10 @@ impl Sched {
         g.jitter = seed | 1;
     }
 
+    pub fn is_free(&self) -> bool {
+        self.inner.lock().unwrap().mode == Mode::Free
+    }
+
     pub fn set_fine_reg(&self, on: bool) {
         self.inner.lock().unwrap().fine_reg = on;
     }
